@@ -8,6 +8,16 @@ import NmVerif.Index.Pad
 import NmVerif.Index.Take
 import NmVerif.Index.Repeat
 import NmVerif.Index.Broadcast
+import NmVerif.Index.Capacity
+import NmVerif.Index.SlidingWindow
+import NmVerif.Index.Slice
+import NmVerif.Index.NormalizeAxis
+import NmVerif.Index.Roll
+import NmVerif.Index.Resize
+import NmVerif.Index.Expand
+import NmVerif.Index.Diagonal
+import NmVerif.Index.Matmul
+import NmVerif.NN.Pool
 /-
   C02 driver: chains of indexing views as `IxView.comp` of the per-kind models (the objects the theorems
   `Props.C02.chain_inBounds` / `chain_read_in_buffer` speak about).
@@ -16,6 +26,10 @@ import NmVerif.Index.Broadcast
       stage = transpose:<axes> | reshape:<to> | tile:<reps> | flip:<axes> | bcast:<shape> | pad:<widths>
             | take:<indices>:<axis> | repeat:<r>:<axis>
     answer  `ok shape=<dims> data=<flat source id per element, -1 = fill>` | `nothing` | `unmodelled` (other stage kinds)
+
+    cap fn=<f> shape=<dims> bs=<C> …      (harness/h_c02cap.cpp: index functions with bounded operands of capacity C)
+    answer  `ok cap=<B> value=<entries>` | `nothing`: `B` = the bound of the result container (`Index/Capacity.lean`),
+            `value` = what the mirrored index function computes
 -/
 namespace NmVerif.Driver.C02
 open NmVerif NmVerif.Proto NmVerif.Index
@@ -47,8 +61,102 @@ def chainView (s : Shape) : List String → Option (Option IxView)
         let outer ← stageView inner.dst st
         pure (outer.map (fun o => o.comp inner))) first
 
+def capAns (cap : Nat) (v : Option (List Nat)) : String :=
+  match v with
+  | none => "nothing"
+  | some l => s!"ok cap={cap} value={fmtNats l}"
+
+/-- `s,e,t,s,e,t,…` → range entries -/
+def triples : List Int → Option (List Slice.Entry)
+  | [] => some []
+  | s :: e :: t :: rest => (triples rest).map (Slice.Entry.range (some s) (some e) (some t) :: ·)
+  | _ => none
+
+def capHandle (a : Args) : Option String := do
+  let fn ← a.get? "fn"
+  let shape := (a.nats "shape").getD []
+  let bs := (a.nat "bs").getD shape.length
+  match fn with
+  | "expand_dims" =>
+      let axes ← a.ints "axes"; let ba := (a.nat "ba").getD axes.length
+      pure (capAns (Cap.capExpandDims bs ba) (shapeExpandDims shape axes))
+  | "expand_dims1" =>
+      let axis ← a.int "axis"
+      pure (capAns (Cap.capExpandDims bs 1) (shapeExpandDims shape [axis]))
+  | "squeeze" => pure (capAns (Cap.capSame bs) (some (shapeSqueeze shape)))
+  | "remove_single_dims" => pure (capAns (Cap.capSame bs) (some (Cap.removeSingleDims shape)))
+  | "sliding_window" =>
+      let axes ← a.optInts "axes"
+      let ws ← a.nats "window"
+      match a.get? "scalar" with
+      | some _ => pure (capAns (Cap.capSlidingWindow bs 1) (shapeSlidingWindow shape ws axes true))
+      | none =>
+          let bw := (a.nat "bw").getD ws.length
+          pure (capAns (Cap.capSlidingWindow bs bw) (shapeSlidingWindow shape ws axes false))
+  | "take" =>
+      let n ← a.nat "nidx"; let axis ← a.int "axis"
+      pure (capAns (Cap.capSame bs) (some (shapeTake shape n axis)))
+  | "dslice" =>
+      let f ← a.ints "sl"; let es ← triples f
+      pure (capAns (Cap.capSame bs) (Slice.shapeDynamicSlice shape es))
+  | "moveaxis" =>
+      let src ← a.ints "source"; let dst ← a.ints "destination"
+      pure (capAns (Cap.capSame bs) (moveaxisToTranspose shape.length src dst))
+  | "normalize_axis" =>
+      let axes ← a.ints "axes"; let ba := (a.nat "ba").getD axes.length; let ndim ← a.nat "ndim"
+      pure (capAns (Cap.capSame ba) (NmVerif.normalizeAxes ndim axes))
+  | "roll" =>
+      let axes ← a.ints "axes"
+      pure (capAns (Cap.capSame bs) (shapeRoll shape axes))
+  | "resize" =>
+      let dst ← a.nats "dst"; let bd := (a.nat "bd").getD dst.length
+      pure (capAns (Cap.capSame bd) (shapeResize shape dst))
+  | "expand" =>
+      let axes ← a.ints "axes"; let sp ← a.nats "spacing"
+      pure (capAns (Cap.capSame bs) ((Index.normalizeAxes axes shape.length).map (fun ks => shapeExpand shape ks sp)))
+  | "diagonal" =>
+      let off ← a.int "offset"; let a1 ← a.int "axis1"; let a2 ← a.int "axis2"
+      pure (capAns (Cap.capDiagonal bs) (do
+        let k1 ← normalizeAxis1 a1 shape.length; let k2 ← normalizeAxis1 a2 shape.length
+        shapeDiagonal shape off k1 k2))
+  | "matmul" =>
+      let b ← a.nats "shape2"; let bb := (a.nat "bb").getD b.length
+      pure (capAns (Cap.capMatmul bs bb) (shapeMatmul shape b))
+  | "pool2d" =>
+      let k ← a.nats "kernel"; let st ← a.nats "stride"; let c ← a.nat "ceil"
+      pure (capAns (Cap.capSame bs) (NN.shapePool2d shape k st (c != 0)))
+  | _ => none
+
+def viewAns (v : Option IxView) : String :=
+  match v with
+  | none => "nothing"
+  | some v => s!"ok shape={fmtNats v.dst} data={fmtInts v.provenance}"
+
+/-- `capv kind=… shape=…`: the indexing view kinds of harness/h_c02capv.cpp (matmul / pooling compute values: no model here) -/
+def capvHandle (a : Args) : Option String := do
+  let kd ← a.get? "kind"
+  let shape ← a.nats "shape"
+  match kd with
+  | "expand_dims" => let axes ← a.ints "axes"; pure (viewAns (expandDimsView shape axes))
+  | "squeeze" => pure (viewAns (squeezeView shape))
+  | "sliding_window" =>
+      let axes ← a.optInts "axes"; let ws ← a.nats "window"
+      pure (viewAns (slidingWindowView shape ws axes (a.get? "scalar").isSome))
+  | "moveaxis" =>
+      let src ← a.ints "source"; let dst ← a.ints "destination"
+      pure (viewAns (moveaxisView shape src dst))
+  | "roll" => let sh ← a.ints "shift"; let axes ← a.ints "axes"; pure (viewAns (rollAxesView shape sh axes))
+  | "resize" => let dst ← a.nats "dst"; pure (viewAns (resizeView shape dst))
+  | "expand" => let axes ← a.ints "axes"; let sp ← a.nats "spacing"; pure (viewAns (expandView shape axes sp))
+  | "diagonal" =>
+      let off ← a.int "offset"; let a1 ← a.int "axis1"; let a2 ← a.int "axis2"
+      pure (viewAns (diagonalView shape off a1 a2))
+  | _ => pure "unmodelled"
+
 def handle : Handler := fun op a =>
   match op with
+  | "cap" => orBad (capHandle a)
+  | "capv" => orBad (capvHandle a)
   | "chain" => orBad do
       let s ← a.nats "shape"; let ops ← a.get? "ops"
       match chainView s (ops.splitOn "/") with
